@@ -193,9 +193,3 @@ def _conj_last_hint(s, rho):
 @lemma(hint=_conj_last_hint)
 def conj_last(s: 'Seq[Expr]', rho: 'Env') -> 'Bool':
     return len(s) == 0 or (s[:-1] + (s[-1],) == s and conj(s, rho) == (conj(s[:-1], rho) and ev(s[-1], rho)))
-
-
-@lemma()
-def conj_last_all(s: 'Seq[Expr]') -> 'Bool':
-    """closed form of conj_last (usable as a loop hint, where no valuation can be named)"""
-    return len(s) == 0 or forall_env(lambda rho: conj(s, rho) == (conj(s[:-1], rho) and ev(s[-1], rho)))
